@@ -295,7 +295,12 @@ func (v *parser_) parseCollection() (
 	case "Catalog":
 		var catalog = col.Catalog[any, any](notation).Make()
 		for _, item := range sequence.AsArray() {
-			var association = item.(col.AssociationLike[any, any])
+			var association, isAssociation = item.(col.AssociationLike[any, any])
+			if !isAssociation {
+				var message = v.formatError(token)
+				message += "The items of a Catalog must be associations.\n"
+				panic(message)
+			}
 			var key = association.GetKey()
 			var value = association.GetValue()
 			catalog.SetValue(key, value)
@@ -304,7 +309,12 @@ func (v *parser_) parseCollection() (
 	case "Map":
 		var map_ = col.Map[any, any](notation).Make()
 		for _, item := range sequence.AsArray() {
-			var association = item.(col.AssociationLike[any, any])
+			var association, isAssociation = item.(col.AssociationLike[any, any])
+			if !isAssociation {
+				var message = v.formatError(token)
+				message += "The items of a Map must be associations.\n"
+				panic(message)
+			}
 			var key = association.GetKey()
 			var value = association.GetValue()
 			map_.SetValue(key, value)
